@@ -70,7 +70,11 @@ def type_sweep():
     import numpy as np
     bad = []
     for name, conv in [("int", int), ("float", float), ("np.float64", np.float64), ("np.float32", np.float32), ("np.int64", np.int64)]:
-        for vals in ({"a": 0, "b": 0}, {"a": 1, "b": -1}, {"a": 2, "b": 2}, {"a": 3}, {"a": 0}):
+        cases = [{"a": 0, "b": 0}, {"a": 1, "b": -1}, {"a": 2, "b": 2}, {"a": 3}, {"a": 0}]
+        if name in ("float", "np.float64"):
+            # non-zero but tiny (subnormal) and huge normalisers: the result must still be finite
+            cases += [{"a": 1e-310, "b": 2e-310, "c": 0.0}, {"a": 5e-324, "b": 0.0}, {"a": 1e308, "b": 0.5e308}, {"a": -1e-320, "b": 3e-320}]
+        for vals in cases:
             for mode in ("sum", "delta"):
                 with np.errstate(all="ignore"), warnings.catch_warnings():
                     warnings.simplefilter("ignore")
